@@ -20,8 +20,11 @@ CHECKS = {
                 note=PC_NOTE, tech=PC_TECH),
     "C02": dict(level="model_checking", ref="DESIGN.md §4 C02, §9",
                 text="Same machinery as C01; clauses: no lost wake-up (nothing left in the mailbox of a sleeping process at quiescence), accepted = handled "
-                     "exactly once, refused never handled, bounded mailboxes.",
-                note=PC_NOTE + " Fallback re-routing and delayed sends are not yet covered.", tech=PC_TECH),
+                     "exactly once, refused never handled, bounded mailboxes. Fallback and delayed sends: cases on a real node judged by TLC with the reference Box - a parked "
+                     "receiver with a bounded mailbox (1-3, every class, pid / name / alias) and the fallback on / off / unknown / itself: the first cap messages are the "
+                     "receiver's, every later one is handled exactly once by the fallback (wrapped with recipient and tag) or refused and handled by nobody; SendAfter with "
+                     "cancellations placed around the firing time: a cancellation that reported success means never delivered, otherwise delivered exactly once.",
+                note=PC_NOTE, tech=PC_TECH),
     "C03": dict(level="model_checking", ref="DESIGN.md §4 C03, §9",
                 text="Same machinery as C01; clauses: per-sender FIFO within a class on every execution, and at every pick (atomic under the controller) the "
                      "handled message is the oldest visible message of the highest non-empty class, judged against the real queue contents.",
